@@ -482,6 +482,9 @@ REDEF = [
 ]
 DIRECTIVES = [('#if 1\n', False), ('#ifdef A\n', False), ('#ifndef A\n', False), ('#elif 1\n', False), ('#else\n', False), ('#endif\n', False), ('#include "x.h"\n', False),
               ('#error no\n', False), ('#frob\n', False), ('#define C a ## b\n', False), ('#define C(a) #b\n', False), ('#define C __VA_ARGS__\n', False),
+              # 6.10.3p5-6: macro parameters are uniquely declared; __VA_ARGS__ occurs only in the replacement list of a variadic macro
+              ('#define C(a, a) a\n', False), ('#define C(a, b, a) b\n', False), ('#define C(a, b, c) a b c\nC(1,2,3);', True), ('#define __VA_ARGS__ 1\n', False), ('#define C(__VA_ARGS__) 1\n', False),
+              ('#define C(a, __VA_ARGS__) 1\n', False), ('#define C(...) __VA_ARGS__\nC(1);', True),
               ('#\n1;', True), ('#pragma once\n2;', True), ('#line 5\n3;', True), ('# 7 "f.c" 1\n4;', True), ('#define C(a, ...) a\nC(1,2,3);', True), ('#undef ZZ\n5;', True)]
 
 
@@ -648,7 +651,7 @@ def rule_redef(chk, prog, tier):
 
 
 def rule_directives(chk, prog, tier):
-    r = chk.rule('C12.c', 'unimplemented directives (#if family, #include, #error) and the ## operator are diagnosed, not ignored; the implemented ones are accepted', floor=15)
+    r = chk.rule('C12.c', 'unimplemented directives (#if family, #include, #error), the ## operator, duplicate macro parameters and misplaced __VA_ARGS__ are diagnosed, not ignored; the implemented forms are accepted', floor=22)
     for text, ok_expected in DIRECTIVES:
         run = implementation(prog, text)
         if run.outcome == 'unsupported':
